@@ -2,7 +2,7 @@
 tie: T-gen (cxx2coq on BucketOpen2N2 / BucketOpenN1 / BucketOpen8) + translator validation against the real code."""
 import os
 
-GEN = ['gen_hs_add.json', 'gen_open2n2_ops.json', 'gen_openn1_ops.json', 'gen_open2n2.json', 'gen_open2n2_m1.json', 'gen_open2n2_m2.json', 'gen_open2n2_nf.json', 'gen_openn1.json', 'gen_open8.json', 'gen_base.json']
+GEN = ['gen_hs_add.json', 'gen_hs_findin.json', 'gen_open2n2_ops.json', 'gen_openn1_ops.json', 'gen_open2n2.json', 'gen_open2n2_m1.json', 'gen_open2n2_m2.json', 'gen_open2n2_nf.json', 'gen_openn1.json', 'gen_open8.json', 'gen_base.json']
 
 def gen_cases(ctx, scale):
     r = ctx.rng
